@@ -239,6 +239,8 @@ class DagRun(Contract):
             out.append(('a-missing-pool-fails-before-anything-runs|C17', not allocs and not runs and outcome == 'raise'
                         and z3.simplify(value.t == failed[0].exc.t)))
             return out
+        if outcome == 'raise' and not allocs and not runs:
+            return out      # the call ended before any manager existed: nothing of C07/C08 to say about this path
         ok = len(allocs) == 1 and len(runs) == 1
         out.append(('a-fresh-manager-per-run|C08', ok))
         if ok:
